@@ -105,7 +105,13 @@ EXPLANATION = (
     "(same reachable readers of the output objects, same returns) while another decoded result is handled differently; a condition that cannot be "
     "decided keeps both ways, which can only hide a violation, never make one. C20.R13 (list and channel description travel together): the "
     "renderers are resolved from the call graph of gsm48_rr.c; in each of their callers every call that is handed the rendered local list with a "
-    "channel description must be reached (reaching definitions of list and length on the statement CFG) only by render calls for that description.")
+    "channel description must be reached (reaching definitions of list and length on the statement CFG) only by render calls for that description. "
+    "C20.R9 also walks the SI4 parser's CFG with the conditions it tests before its first write evaluated (three-valued) for the arguments of each "
+    "re-run by gsm48_decode_sysinfo1 -- pointer identity and memcmp over resolved objects -- and demands that the decoder call stays reachable. "
+    "C20.R14 (the received bitmap is the rendered one): a handler of gsm48_rr.c that stores a Mobile Allocation LV into a description and renders "
+    "afterwards must render that description (or an object the octets were copied on to). C20.R15 (order at the consumer): in trx_if_cmd_setfh the "
+    "values of pair k are traced to the element address they are read from, an affine function of one walker that is folded to `entry k`; a local "
+    "buffer in between must be a whole copy, a sort on it is decided by interpreting its comparator over the ARFCN pairs in TS 44.018 order.")
 ASSUMPTIONS = [
     "clang 14 parses the sliced function exactly as the layer23 build would (prelude models only declarations: stdint.h, EINVAL sign, struct gsm_sysinfo_freq {uint8_t mask;}, FREQ_TYPE_* values and array extents read from sysinfo.h, LOGP reduced to the evaluation of its value arguments)",
     "int is 32 bit: no counter in the function exceeds 2040, so machine arithmetic coincides with integer arithmetic",
@@ -121,6 +127,9 @@ ASSUMPTIONS = [
     "C20.R11 (LV copies): every struct gsm48_rr_cd whose mob_alloc_lv is filled by a copy is rendered by gsm48_rr_render_ma afterwards (cd_now, cd_before, cd_after are), and the member does not already hold the bitmap that is copied; octet 0 of the source is the length of the LV that was received; nothing between a guard on that octet and the copy changes the source (callees, logging macros); a member reached through a synthesised inner struct (`rr->cd_now.mob_alloc_lv`) is the member of that name of struct gsm48_rr_cd",
     "C20.R12 (result use): the results the witness fold C20.R8 obtains (return value per refusal / empty / non-empty list) are the results the callers see (same definition of the decoder); a caller's condition over the result is evaluated in the integers after conversion to the type of the local that holds it, conditions compared after an unsigned conversion or mixed with other values are left undecided (both ways kept); a local list the decoder fills is handed on only by statements that name it",
     "C20.R13 (pairing): a function of gsm48_rr.c that is handed the list and a struct gsm48_rr_cd * sends the list to L1 with the hopping parameters (MAIO, HSN) of that description (gsm48_rr_activate_channel, gsm48_rr_channel_after_time do); callees other than the renderers do not write the caller's list or length; different member paths of one pointer variable that is written once are different objects; the contents of a description are not changed between its render call and the consumer (not decided)",
+    "C20.R9 (re-run conditions): a condition the SI4 parser tests before any store, copy or call of a function of sysinfo.c sees the object as the caller left it; a local array of the caller that no other statement names holds what its one whole copy put there; a compare length within the copied octets compares only those; functions outside sysinfo.c (logging) called in between write neither side",
+    "C20.R14 (received / rendered): a local structure of a handler is a different object from anything reached through its pointer parameters; a handler that stores a received Mobile Allocation and renders afterwards renders for that message (the lists of those render calls are the ones handed to L1, see C20.R13)",
+    "C20.R15 (order): gsm_arfcn2freq10 and the arithmetic on its result are functions of their arguments; qsort sorts by its comparator and leaves an array that is strictly ordered by it as it is; the entries of a hopping list are distinct ARFCNs 0..1023 (flag bits of the band indicator are the same for all entries)",
     "C20.R7 (typed word model): integer widths are those of the parse target (char 8, short 16, int 32, long long and uint64_t 64 bit, long as uint64_t's typedef shows); signed integers are two's complement, conversion to a narrower signed type wraps, >> of a negative value is arithmetic and << of a signed value wraps into the sign bit (what gcc and clang define); a shift by a negative count or by a count >= the width of the promoted left operand is undefined (C11 6.5.7) and is reported, not evaluated",
 ]
 
@@ -4928,14 +4937,14 @@ def ready_states(fm, fname, n):
                 t, p2 = fm.norm_term(t2, p2)
             fv = free_vars(t)
             mine = {v for v in fv if any(v.startswith(q + "->") for q in sp)}
-            if not mine:
-                if fv & set(sp):
-                    raise AnalysisError("%s(): the decoder call waits for `%s`, a condition on the whole object that the rule "
-                                        "cannot resolve to a member" % (fname, ctext(e)[:60]))
+            if any(v.startswith("<opaque") for v in fv) and named & set(sp):
+                mine = set()            # could not be lowered: decided on the AST below
+            elif not mine and not fv & set(sp):
                 continue
             if len(mine) != 1 or (fv - mine):
-                raise AnalysisError("%s(): the decoder call waits for `%s`, which is not a test of one member of the object" % (
-                    fname, ctext(e)[:60]))
+                # not a test of one member of the object: evaluated for the arguments of each re-run (RerunEval)
+                out.append({"complex": True, "expr": e, "pol": p, "cond": c, "text": ctext(e)})
+                continue
             var = mine.pop()
             q, path = var.split("->", 1)
             if not re.fullmatch(r"\w+(\.\w+)*", path):
@@ -4981,6 +4990,318 @@ def reaching_stores(fm, lv, node):
     return out
 
 
+CMP_FNS = ("memcmp", "__builtin_memcmp", "bcmp", "__builtin_bcmp")
+
+
+class RerunEval(object):
+    """Three-valued value of a condition of the parser `pm` in the state it is entered in by the call `c` at CFG node
+    `n` of the function `g` (the re-run of the parser for the stored message).  Values: ("i", int), ("t", truth),
+    ("p", object, octet offset) with the object in the caller's normal form (lvalue_object); None = not determined.
+      parameters      the call's arguments, evaluated in the caller (constants folded by clang; pointers resolved to
+                      the object they designate: a member of the structure parameter, a local array)
+      members         of the structure handed on: arrays are their address; scalars have the constant every store
+                      reaching the call gives them, else the truth value a guard dominating the call established
+      p == q          equal for one object, different for objects that cannot overlap
+      memcmp(p, q, k) 0 for one object; 0 when one side is a local array of the caller that was filled, as a whole, by
+                      a copy from the other side's object, nothing was stored in between and k does not exceed the copy"""
+
+    def __init__(self, pm, g, n, c, writes_member):
+        self.pm, self.g, self.n, self.c = pm, g, n, c
+        self.bind = dict(zip(pm.params, kids(c)[1:]))
+        self.writes_member = writes_member
+        self.notes = []
+        self.at, self.dirty = None, set()       # CFG node of the parser the expression is evaluated at; nodes behind its first write
+
+    # ---- caller side
+    def _sizes_ok(self, fm, e):
+        for x in walk(e):
+            if kind(x) == "UnaryExprOrTypeTraitExpr":
+                a = strip(kids(x)[0]) if kids(x) else None
+                if a is not None and kind(a) == "DeclRefExpr" and a.get("referencedDecl", {}).get("name") in fm.locals and \
+                        re.fullmatch(r"(%s)\s*\[\d+\]" % SCALAR.pattern, qt_of(a)):
+                    continue
+                if not sizeof_ok(fm, x):
+                    return False
+        return True
+
+    def caller(self, e):
+        g = self.g
+        v = g.tu.fold(e)
+        if v is not None:
+            return ("i", v) if self._sizes_ok(g, e) else None
+        if "*" in qt_of(strip(e)) or "[" in qt_of(strip(e)) or "*" in qt_of(strip(e, casts=True)):
+            try:
+                return ("p", pointer_object(g, e, self.n), 0)
+            except AnalysisError:
+                return None
+        return None
+
+    def member(self, obj, qt):
+        """value of the scalar member `obj` of the caller's object when the call is made"""
+        g, lv = self.g, fmt_obj(obj)
+        name = obj[1][-1]
+        if self.writes_member(name):
+            return None
+        for w in g.memwrites:
+            l = strip(kids(w.ast)[0])
+            if kind(l) == "MemberExpr" and l.get("name") == name and ctext(l) != lv:
+                return None
+        rs = reaching_stores(g, lv, self.n)
+        vals = {g.tu.fold(w.val) if w != "entry" and w.how == "assign" and w.val is not None else None for w in rs if w != "entry"}
+        if "entry" not in rs and len(vals) == 1 and None not in vals:
+            return ("i", vals.pop())
+        if rs == ["entry"]:
+            for (t, p, c0, l) in g.atoms(self.n):
+                if t == X.V(lv):
+                    self.notes.append("`%s` is %s at the call (guard)" % (lv, "set" if p else "clear"))
+                    return ("t", p)
+        return None
+
+    # ---- callee side
+    def val(self, e, depth=0):
+        pm = self.pm
+        if e is None or depth > 40:
+            return None
+        k, ks = kind(e), kids(e)
+        if k in ("ParenExpr", "ConstantExpr"):
+            return self.val(ks[0], depth + 1)
+        if k in ("ImplicitCastExpr", "CStyleCastExpr"):
+            v = self.val(ks[0], depth + 1)
+            if v is not None and v[0] == "t" and e.get("castKind") == "IntegralCast":
+                # a widening conversion keeps zero / non-zero
+                t0, t1 = int_type(pm.tu, ks[0].get("type", {})), int_type(pm.tu, e.get("type", {}))
+                return v if t0 is not None and t1 is not None and t1[0] >= t0[0] else None
+            if v is None or v[0] != "i":
+                return v if e.get("castKind") in ("LValueToRValue", "NoOp", "BitCast", "ArrayToPointerDecay", "IntegralToBoolean",
+                                                  "PointerToBoolean") else None
+            if e.get("castKind") in ("LValueToRValue", "NoOp"):
+                return v
+            it = int_type(pm.tu, e.get("type", {}))
+            return ("i", _wrap(v[1], it)) if it is not None else None
+        if k == "UnaryExprOrTypeTraitExpr" or (k == "IntegerLiteral"):
+            v = pm.tu.fold(e)
+            return ("i", v) if v is not None and self._sizes_ok(pm, e) else None
+        if k == "DeclRefExpr":
+            nm = e.get("referencedDecl", {}).get("name")
+            if e.get("referencedDecl", {}).get("kind") == "EnumConstantDecl":
+                v = pm.tu.fold(e)
+                return ("i", v) if v is not None else None
+            if nm in self.bind and nm in pm.params and pm.never_written(nm) and nm not in pm.dups:
+                return self.caller(self.bind[nm])
+            if nm in pm.locals and nm not in pm.addr and nm not in pm.dups and self.at is not None:
+                # a temporary: its one reaching definition, evaluated where it stands
+                defs = pm.reaching_defs(nm, self.at)
+                if len(defs) == 1 and defs[0] != "undef" and defs[0].how in ("init", "assign") and defs[0].val is not None and \
+                        defs[0].node is not self.at and pm._readonly(defs[0].val) and defs[0].node.id not in self.dirty:
+                    keep, self.at = self.at, defs[0].node
+                    try:
+                        v = self.val(defs[0].val, depth + 1)
+                    finally:
+                        self.at = keep
+                    it = int_type(pm.tu, pm.locals[nm].get("type", {}))
+                    return ("i", _wrap(v[1], it)) if v is not None and v[0] == "i" and it is not None else (v if v is None or v[0] == "p" else None)
+            return None
+        if k == "MemberExpr":
+            try:
+                b, p = lvalue_object(pm, e, pm.g.entry)
+            except AnalysisError:
+                return None
+            q = b[1:] if b.startswith("*") else None
+            base = self.caller(self.bind[q]) if q in self.bind and pm.never_written(q) else None
+            if base is None or base[0] != "p" or base[2] != 0:
+                return None
+            obj = (base[1][0], base[1][1] + p)
+            if "[" in qt_of(e):
+                return ("p", obj, 0)
+            if "*" in qt_of(e) or qt_of(e).startswith(("struct ", "union ")):
+                return None
+            return self.member(obj, qt_of(e))
+        if k == "UnaryOperator":
+            op = e.get("opcode")
+            if op == "!":
+                t = self.truth(ks[0], depth + 1)
+                return None if t is None else ("i", int(not t))
+            if op == "&":
+                x = strip(ks[0])
+                if kind(x) == "MemberExpr" and "[" in qt_of(x):
+                    return self.val(x, depth + 1)
+                if kind(x) == "ArraySubscriptExpr" and pm.tu.fold(kids(x)[1]) == 0:
+                    return self.val(kids(x)[0], depth + 1)
+            return None
+        if k == "ConditionalOperator":
+            t = self.truth(ks[0], depth + 1)
+            if t is None:
+                a, b = self.val(ks[1], depth + 1), self.val(ks[2], depth + 1)
+                return a if a is not None and a == b else None
+            return self.val(ks[1] if t else ks[2], depth + 1)
+        if k == "BinaryOperator":
+            op = e.get("opcode")
+            if op in ("&&", "||"):
+                a, b = self.truth(ks[0], depth + 1), self.truth(ks[1], depth + 1)
+                if op == "&&":
+                    r = False if a is False or b is False else (True if a and b else None)
+                else:
+                    r = True if a or b else (False if a is False and b is False else None)
+                return None if r is None else ("i", int(r))
+            a, b = self.val(ks[0], depth + 1), self.val(ks[1], depth + 1)
+            if a is None or b is None:
+                return None
+            if a[0] == "p" and b[0] == "p" and op in ("==", "!="):
+                if a[1] == b[1]:
+                    eq = a[2] == b[2]
+                else:
+                    d = objects_differ(a[1], b[1])
+                    if d is not True:
+                        return None
+                    eq = False
+                return ("i", int(eq == (op == "==")))
+            if a[0] == "i" and b[0] == "i":
+                x, y = a[1], b[1]
+                f = {"+": lambda: x + y, "-": lambda: x - y, "*": lambda: x * y, "<": lambda: int(x < y), ">": lambda: int(x > y),
+                     "<=": lambda: int(x <= y), ">=": lambda: int(x >= y), "==": lambda: int(x == y), "!=": lambda: int(x != y),
+                     "&": lambda: x & y, "|": lambda: x | y}.get(op)
+                it = int_type(pm.tu, e.get("type", {}))
+                return ("i", _wrap(f(), it)) if f is not None and it is not None else None
+            if op in ("==", "!=") and {a[0], b[0]} == {"t", "i"}:
+                t, i = (a, b) if a[0] == "t" else (b, a)
+                if i[1] == 0:
+                    return ("i", int((not t[1]) == (op == "==")))
+            return None
+        if k == "CallExpr" and _callee(e) in CMP_FNS and len(ks) == 4:
+            return self.compare(ks[1], ks[2], ks[3], depth)
+        return None
+
+    def truth(self, e, depth=0):
+        v = self.val(e, depth)
+        if v is None:
+            return None
+        return True if v[0] == "p" else (v[1] if v[0] == "t" else v[1] != 0)
+
+    def compare(self, ea, eb, ek, depth):
+        a, b, k = self.val(ea, depth + 1), self.val(eb, depth + 1), self.val(ek, depth + 1)
+        if a is None or b is None or a[0] != "p" or b[0] != "p":
+            return None
+        if a[1] == b[1] and a[2] == b[2]:
+            return ("i", 0)
+        if k is None or k[0] != "i" or a[2] or b[2]:
+            return None
+        for (loc, other) in ((a[1], b[1]), (b[1], a[1])):
+            m = self.copy_of(loc, other)
+            if m is not None and 0 <= k[1] <= m:
+                self.notes.append("the local `%s` holds a copy of `%s` (%d octets, %d compared)" % (loc[0], fmt_obj(other), m, k[1]))
+                return ("i", 0)
+        return None
+
+    def copy_of(self, loc, other):
+        """number of leading octets of the caller's local array `loc` that equal those of the object `other` at the call"""
+        g = self.g
+        if loc[0].startswith("*") or loc[1] or loc[0] not in g.locals or not re.fullmatch(
+                r"(%s)\s*\[\d+\]" % _SIZE1.pattern, qt_of(g.locals[loc[0]])):
+            return None
+        nm = loc[0]
+        fills = []
+        for (n, c) in g.calls:
+            if c is self.c or not any(_mentions(x, name=nm) for x in kids(c)[1:]):
+                continue
+            fills.append((n, c))
+        alias = {v for v, ws in g.writes.items() for w in ws if w.val is not None and _mentions(w.val, name=nm)}
+        if len(fills) != 1 or any(g.store_base(kids(w.ast)[0]) in alias | {nm} for w in g.memwrites) or any(
+                c2 is not self.c and any(_mentions(x, name=v) for x in kids(c2)[1:] for v in alias) for (_, c2) in g.calls):
+            return None
+        (n, c) = fills[0]
+        args = kids(c)[1:]
+        if _callee(c) not in COPY_FNS or len(args) < 3 or not g.g.dominates(n, self.n) or n is self.n:
+            return None
+        try:
+            d, s = pointer_object(g, args[0], n), pointer_object(g, args[1], n)
+        except AnalysisError:
+            return None
+        m = g.tu.fold(args[2])
+        if d != loc or s != other or m is None or not self._sizes_ok(g, args[2]):
+            return None
+        # nothing is stored into either side between the copy and the call
+        after = g.reach_succ(n)
+        mid = {x.id for x in g.g.nodes if x.id in after and x is not self.n and self.n.id in g.reach_succ(x)}
+        for w in g.memwrites:
+            if w.node.id in mid and (g.store_base(kids(w.ast)[0]) == nm or
+                                     any(kind(x) == "MemberExpr" and x.get("name") == other[1][-1] for x in walk(kids(w.ast)[0]))):
+                return None
+        for (n2, c2) in g.calls:
+            cal = _callee(c2)
+            if n2.id in mid and (cal is None or cal in COPY_FNS or cal in ("memset", "bzero", "__builtin_memset") or
+                                 self.writes_member(None, cal)):
+                return None
+        return m
+
+
+def member_store_pat(member):
+    """source text of a store into the member `member` of some object"""
+    return re.compile(r"(?:->|\.)\s*%s\s*%s|(?:\+\+|--)\s*\w+(?:\s*(?:->|\.)\s*\w+)*\s*(?:->|\.)\s*%s\b(?!\s*(?:->|\.|\[|\())" % (
+        re.escape(member), _STORE_OPS, re.escape(member)))
+
+
+def r9_rerun(L, R, cf, pm, pname, g, gname, runs, cplx):
+    """The parser's conditions, evaluated (RerunEval) for the arguments of each re-run for the stored message, must leave
+    its decoder call reachable.  Conditions that are tested before the parser has written anything (no store, no copy,
+    no call of a function of the file on any way to them) are evaluated in the state of the call; the CFG is walked from
+    the entry along the branches they select (both branches where the value is not determined, and behind the first
+    write).  `cplx`: conditions in front of the decoder call that are not a test of one member (`the message is a
+    repetition of the stored one`) -- these must be determined."""
+    files = {f[0]: (f[2], f[3]) for f in cf.funcs}
+    effect = {w.node.id for w in pm.memwrites} | {
+        n2.id for (n2, c2) in pm.calls if _callee(c2) is None or _callee(c2) in files or _callee(c2) in COPY_FNS or
+        _callee(c2) in ("memset", "bzero", "__builtin_memset")}
+    dirty = set()
+    for x in pm.g.nodes:
+        if x.id in effect:
+            dirty |= pm.reach_succ(x) | {x.id}
+    targets = {n.id for (n, c) in pm.calls if ctext(kids(c)[0]) == FN}
+    for r in cplx:
+        if r["cond"].id in dirty:
+            raise AnalysisError("%s(): the decoder call waits for `%s`, which is tested after the object / the message was "
+                                "written: not evaluated" % (pname, r["text"][:60]))
+    for k, (n, c) in enumerate(runs):
+        def writes_member(member, callee=None, n=n):
+            if callee is not None:
+                return callee in files
+            pat = member_store_pat(member)
+            return any(n2 is not n and n.id in g.reach_succ(n2) and _callee(c2) in files and _callee(c2) != gname and
+                       pat.search(cf.clean[files[_callee(c2)][0]:files[_callee(c2)][1]]) for (n2, c2) in g.calls)
+        if len(kids(c)) - 1 != len(pm.params):
+            raise AnalysisError("call of %s() in %s() with %d arguments" % (pname, gname, len(kids(c)) - 1))
+        ev3 = RerunEval(pm, g, n, c, writes_member)
+        ev3.dirty = dirty
+        for r in cplx:
+            ev3.at = r["cond"]
+            if ev3.truth(r["expr"]) is None:
+                raise AnalysisError("%s(): the decoder call waits for `%s`; whether that holds when %s() re-runs the parser (`%s`) "
+                                    "cannot be determined" % (pname, r["text"][:80], gname, stmt_text(c)[:60]))
+        seen, work, decided = set(), [pm.g.entry], []
+        while work:
+            x = work.pop()
+            if x.id in seen:
+                continue
+            seen.add(x.id)
+            t = None
+            if x.kind == "cond" and x.id not in dirty and getattr(x, "cond", None) is not None:
+                ev3.at = x
+                t = ev3.truth(x.cond)
+                if t is not None:
+                    decided.append((x, t))
+            work += [y for (y, l) in x.succ if t is None or not isinstance(l, bool) or l == t]
+        ok = bool(targets & seen)
+        why = "; ".join(dict.fromkeys(ev3.notes))
+        dtxt = "; ".join("`%s` %s" % (ctext(x.cond)[:140], "holds" if t else "fails") for (x, t) in decided)
+        L.ob(R, F_SYS, gname, "re-run of %s() for the stored message%s: with the parser's conditions evaluated for the arguments of "
+             "the re-run, its call of %s() stays reachable" % (pname, " (#%d)" % (k + 1) if len(runs) > 1 else "", FN),
+             "%s() reachable for `%s`" % (FN, stmt_text(c)[:60]),
+             ("reachable (%s)" % (dtxt or "no condition is tested before the parser's first write")) if ok else
+             "%s%s: %s() leaves before %s(), the hopping list is not computed again from the cell allocation that %s() has just "
+             "stored (channels of the previous allocation stay in it; a bitmap that arrived first is never decoded)" % (
+                 dtxt, " (%s)" % why if why else "", pname, FN, gname),
+             ok, g.line(c))
+
+
 def r9_ready(L, tier):
     """C20.R9 -- caller half of the clause "the decoded hopping list contains exactly the cell-allocation channels whose
     bit is set": it speaks about the list once the cell allocation (SI1) and the bitmap (SI4) are both present, in
@@ -4994,33 +5315,39 @@ def r9_ready(L, tier):
     message (clear), the parser skips the decoder and the list stays empty although bits are set: violation.  A call
     that fails is tolerated when another re-run on the same object that passes lies on every way from it to the exit.
     Mixed situations (some paths with, some without a store; stored values that are not constants; the member written
-    through another name or inside another function of sysinfo.c called from here) are not classified: ANALYSIS-ERROR."""
+    through another name or inside another function of sysinfo.c called from here) are not classified: ANALYSIS-ERROR.
+    The same clause demands that the re-run really gets to the decoder: r9_rerun evaluates the conditions the parser tests
+    before its first write for the arguments of the re-run (a test `this message repeats the stored one` holds for the
+    stored message itself and for a copy of it) and walks the parser's CFG along the decided branches; a re-run that
+    cannot reach the decoder call leaves the list computed from the previous cell allocation: violation."""
     R = "C20.R9"
     with open(L.unit(F_HDR), "r", encoding="utf-8", errors="surrogateescape") as f:
         hdr = blank_strings(strip_comments(f.read()))
     H = HeaderIndex(L)
     cf = CFile(L, F_SYS)
-    nsites, nflags, nruns = 0, 0, 0
+    nsites, nflags, nruns, ncplx = 0, 0, 0, 0
     for pname in sorted({fi[0] for (fi, pos, args) in cf.calls(FN)}):
         fm = slice_of(L, H, F_SYS, pname, hdr)
-        reqs = []
+        reqs, cplx = [], []
         for (n, c) in fm.calls:
             if ctext(kids(c)[0]) != FN:
                 continue
             nsites += 1
             for r in ready_states(fm, pname, n):
-                if (r["var"], r["pol"], r["term"]) not in [(x["var"], x["pol"], x["term"]) for x in reqs]:
+                if r.get("complex"):
+                    if (r["text"], r["pol"]) not in [(x["text"], x["pol"]) for x in cplx]:
+                        cplx.append(r)
+                elif (r["var"], r["pol"], r["term"]) not in [(x["var"], x["pol"], x["term"]) for x in reqs]:
                     reqs.append(r)
         nflags += len(reqs)
-        if not reqs:
-            continue
+        ncplx += len(cplx)
         for gname in sorted({fi[0] for (fi, pos, args) in cf.calls(pname)} - {pname}):
             g = slice_of(L, H, F_SYS, gname, hdr)
             runs = [(n, c) for (n, c) in g.calls if ctext(kids(c)[0]) == pname]
+            L.stage(r9_rerun, L, R, cf, fm, pname, g, gname, runs, cplx)
             for r in reqs:
                 member = r["path"].split(".")[-1]
-                pat = re.compile(r"(?:->|\.)\s*%s\s*%s|(?:\+\+|--)\s*\w+(?:\s*(?:->|\.)\s*\w+)*\s*(?:->|\.)\s*%s\b(?!\s*(?:->|\.|\[|\())" % (
-                    re.escape(member), _STORE_OPS, re.escape(member)))
+                pat = member_store_pat(member)
                 # the member is written by another function of the file that is called from here: order unknown
                 called = {ctext(kids(c)[0]) for (_, c) in g.calls}
                 for (hn, _, b0, b1) in cf.funcs:
@@ -5093,6 +5420,7 @@ def r9_ready(L, tier):
     # a parser that makes the decoder call whatever the state of the object awaits nothing: no order to check then
     L.floor(R, "states of the object the parser tests in front of the decoder call (s->si1; none: nothing is awaited)", nflags, 0)
     L.floor(R, "re-runs of the parser by the function that establishes the awaited state (gsm48_decode_sysinfo1)", nruns, 1 if nflags else 0)
+    L.floor(R, "conditions on the message / on several members in front of the decoder call (evaluated for every re-run)", ncplx, 0)
     L.assume("C20.R9: the received-flags of struct gsm48_sysinfo are clear before the first message of a cell (the object is "
              "zeroed when a cell is selected); functions outside sysinfo.c that are called between the store of a flag and the "
              "re-run of the parser do not write it")
@@ -5991,6 +6319,202 @@ def r13_consumer(L, R, cf, fm, fname, rend, sites, n, c, used, seen_keys):
     return 1
 
 
+# ========================================== callers: the received bitmap is the one that is rendered
+
+def lvalue_object(fm, e, at):
+    """(base, member path) of the object an lvalue names at CFG node `at`.  base is a local structure variable named
+    without a dereference (`cd.mob_alloc_lv` -> ("cd", ("mob_alloc_lv",)): one object for the whole function) or
+    "*p" for what a never-written pointer parameter designates; local pointers are followed to their one reaching
+    definition (`cda` -> `&rr->cd_after` -> `&ms->rrlayer.cd_after`), so every name of an object has one form."""
+    e = strip(e, casts=True)
+    k = kind(e)
+    if k == "MemberExpr":
+        inner = kids(e)[0]
+        b, p = pointer_object(fm, inner, at) if e.get("isArrow") else lvalue_object(fm, inner, at)
+        return (b, p + (e.get("name"),))
+    if k == "UnaryOperator" and e.get("opcode") == "*":
+        return pointer_object(fm, kids(e)[0], at)
+    if k == "ArraySubscriptExpr" and fm.tu.fold(kids(e)[1]) == 0 and "[" in qt_of(strip(kids(e)[0])):
+        return lvalue_object(fm, kids(e)[0], at)        # first element: same address as the array
+    v = _ref_name(e)
+    if v is not None and v in fm.locals and v not in fm.dups and "*" not in qt_of(fm.locals[v]):
+        return (v, ())
+    raise AnalysisError("`%s` is not a member path of a local structure or of what a pointer designates" % ctext(e)[:50])
+
+
+def pointer_object(fm, e, at, depth=0):
+    """the object a pointer expression points to at CFG node `at` (same form as lvalue_object)"""
+    e = strip(e, casts=True)
+    if kind(e) == "UnaryOperator" and e.get("opcode") == "&":
+        return lvalue_object(fm, kids(e)[0], at)
+    if kind(e) in ("MemberExpr", "DeclRefExpr") and "[" in qt_of(e):
+        return lvalue_object(fm, e, at)                 # an array decays to the address of the array object
+    v = _ref_name(e)
+    if v is not None and v in fm.params and fm.never_written(v) and v not in fm.dups:
+        return ("*" + v, ())
+    if v is not None and v in fm.locals and v not in fm.addr and v not in fm.dups and depth < 4:
+        defs = fm.reaching_defs(v, at)
+        if len(defs) == 1 and defs[0] != "undef" and defs[0].how in ("init", "assign") and defs[0].val is not None:
+            return pointer_object(fm, defs[0].val, defs[0].node, depth + 1)
+    raise AnalysisError("pointer `%s` cannot be resolved to one object" % ctext(e)[:50])
+
+
+def objects_differ(a, b):
+    """True: the two objects cannot overlap; False: one is (part of) the other; None: unknown (two pointers)"""
+    (ba, pa), (bb, pb) = a, b
+    if ba == bb:
+        k = min(len(pa), len(pb))
+        return pa[:k] != pb[:k]
+    if not ba.startswith("*") or not bb.startswith("*"):
+        # a local structure of this activation against another local / against what a pointer parameter designates
+        # (a parameter was computed before the local existed)
+        return True
+    return None
+
+
+def _derived_from(fm, e, names, depth=0):
+    """the expression, or a value one of its local variables is ever given, names a variable of `names`"""
+    for x in walk(e):
+        v = x.get("referencedDecl", {}).get("name") if kind(x) == "DeclRefExpr" else None
+        if v is None:
+            continue
+        if v in names:
+            return True
+        if v in fm.locals:
+            if depth > 4 or v in fm.dups:
+                return True
+            for w in fm.writes.get(v, []):
+                if w.val is None or _derived_from(fm, w.val, names, depth + 1):
+                    return True
+    return False
+
+
+def r14_received(L, tier):
+    """C20.R14 -- caller half of the clause "the decoded hopping list contains exactly the cell-allocation channels whose
+    bit is set" (mechanism: callers feeding the hopping list to L1): the bitmap a render call decodes is the one that was
+    received for the description it renders.  In every function of gsm48_rr.c that stores a Mobile Allocation (a copy
+    into the LV member the decoder is fed from, C20.R11's set, destination resolved to the description object X that
+    owns the member) and afterwards calls a renderer (C20.R13's resolved set), the stored octets must be able to reach a
+    render call: some render call reachable from the store on the statement CFG renders X, or an object the octets were
+    copied on to in between (copy calls / structure assignments whose source contains the holder).  If every render call
+    that follows renders an object that cannot overlap any holder (different member paths of the same base, a local
+    structure against anything else), every list the handler renders after reception -- the lists it hands to L1 -- is
+    decoded from octets other than the received ones: violation.  Objects reached through two unrelated pointers, or
+    copies in between that cannot be resolved, are not classified (ANALYSIS-ERROR).  A function that only stores (the
+    description is rendered later by another function) has nothing to pair."""
+    R = "C20.R14"
+    with open(L.unit(F_HDR), "r", encoding="utf-8", errors="surrogateescape") as f:
+        hdr = blank_strings(strip_comments(f.read()))
+    H = HeaderIndex(L)
+    cf = CFile(L, F_RR)
+    rend = renderers_of(L, H, hdr, cf)
+    fields = lv_fields(L, H, hdr, "quick")
+    if not rend or not fields:
+        raise AnalysisError("no renderer / no LV member of %s() found in %s" % (FN, F_RR))
+    rcallers = {fi[0] for r in rend for (fi, pos, args) in cf.calls(r)} - set(rend)
+    nstores = npaired = 0
+    for (S, M) in sorted(fields):
+        fnames = sorted({fi[0] for cp in COPY_FNS for (fi, pos, args) in cf.calls(cp)
+                         if args and re.search(r"\b%s\b" % re.escape(M), args[0])} - set(rend))
+        for fname in fnames:
+            nstores += 1
+            if fname not in rcallers:
+                continue
+            k = L.stage(r14_function, L, R, H, hdr, fname, rend, S, M)
+            npaired += 0 if k is STAGE_FAILED else k
+    L.floor(R, "functions of gsm48_rr.c that store a Mobile Allocation LV", nstores, 3)
+    L.floor(R, "stores of a Mobile Allocation that are followed by render calls in the same function", npaired, 3)
+
+
+def r14_function(L, R, H, hdr, fname, rend, S, M):
+    fm = slice_of(L, H, F_RR, fname, hdr)
+    renders, stores, copies = [], [], []
+    for (n, c) in fm.calls:
+        cal, args = _callee(c), kids(c)[1:]
+        if cal in rend:
+            renders.append((n, c))
+        elif cal in COPY_FNS and len(args) >= 3:
+            dp = field_ptr(fm, args[0]) if any(kind(x) == "MemberExpr" and x.get("name") == M for x in walk(args[0])) else None
+            if dp is not None and kind(dp[0]) == "MemberExpr" and dp[0].get("name") == M and dp[1] == 0 and \
+                    struct_of(strip(kids(dp[0])[0])) in (S, None):
+                stores.append((n, c, dp[0]))
+            copies.append((n, c, args[1], args[0], True))
+    for w in fm.memwrites:
+        if w.how == "assign" and qt_of(kids(w.ast)[0]).startswith(("struct ", "union ")):
+            copies.append((w.node, w.ast, kids(w.ast)[1], kids(w.ast)[0], False))
+    k = 0
+    seen = {}
+    for (n, c, dst) in stores:
+        after = fm.reach_succ(n)
+        follow = [(rn, rc) for (rn, rc) in renders if rn.id in after]
+        if not follow:
+            continue
+        k += 1
+        X = lvalue_object(fm, dst, n)
+        rendered = []
+        for (rn, rc) in follow:
+            Y = pointer_object(fm, kids(rc)[1:][rend[_callee(rc)]["cd"]], rn)
+            rendered.append((rn, rc, Y, (Y[0], Y[1] + (M,))))
+        holders, made, unresolved = [X], {X: None}, []       # made: holder -> CFG node of the copy that produced it
+        between = [t for t in copies if t[1] is not c and t[0].id in after]
+        grown = True
+        while grown:
+            grown = False
+            for (cn, cc, src, dd, is_ptr) in between:
+                # holders whose octets are in place when this copy is made
+                cur = [h for h in holders if made[h] is None or cn.id in fm.reach_succ(made[h])]
+                try:
+                    so = pointer_object(fm, src, cn) if is_ptr else lvalue_object(fm, src, cn)
+                    cur = [h for h in cur if so[0] == h[0] and h[1][:len(so[1])] == so[1]]
+                    if not cur:
+                        continue            # copies something else
+                    do = pointer_object(fm, dd, cn) if is_ptr else lvalue_object(fm, dd, cn)
+                except AnalysisError:
+                    # a source that is not derived from the address of a local structure cannot lie inside it
+                    loc = {h[0] for h in cur if not h[0].startswith("*")}
+                    if len(loc) == len({h[0] for h in cur}) and not _derived_from(fm, src, loc):
+                        continue
+                    # whatever is copied lands in an object that no render call that follows reads
+                    dp = field_ptr(fm, dd) if is_ptr else (dd, 0)
+                    try:
+                        do = lvalue_object(fm, dp[0], cn) if dp is not None else None
+                    except AnalysisError:
+                        do = None
+                    if do is not None and all(objects_differ(do, ym) is True for (_, _, _, ym) in rendered):
+                        continue
+                    if stmt_text(cc) not in unresolved:
+                        unresolved.append(stmt_text(cc))
+                    continue
+                for h in cur:
+                    nh = (do[0], do[1] + h[1][len(so[1]):])
+                    if nh not in holders:
+                        holders.append(nh)
+                        made[nh] = cn
+                        grown = True
+        same, differ, unk = [], [], []
+        for (rn, rc, Y, YM) in rendered:
+            # a holder counts for this render call only if the copy that made it lies in front of the call
+            live = [h for h in holders if made[h] is None or rn.id in fm.reach_succ(made[h])]
+            ds = [objects_differ(h, YM) for h in live]
+            (same if any(d is False for d in ds) else differ if all(d is True for d in ds) else unk).append(fmt_obj(Y))
+        ok = bool(same)
+        if not ok and (unk or unresolved):
+            raise AnalysisError("%s(): whether the Mobile Allocation stored into `%s` is the one rendered from `%s` cannot be "
+                                "classified (%s)" % (fname, ctext(dst), " / ".join(sorted(set(unk + differ))),
+                                                     "copies in between: %s" % "; ".join(unresolved)[:120] if unresolved else "objects behind unrelated pointers"))
+        src_txt = ctext(kids(c)[2])
+        kk = seen[(ctext(dst), src_txt)] = seen.get((ctext(dst), src_txt), 0) + 1
+        L.ob(R, F_RR, fname, "Mobile Allocation stored into `%s` from `%s`%s in %s(): a render call that follows decodes the "
+             "description that received it" % (ctext(dst), src_txt, " (#%d)" % kk if kk > 1 else "", fname),
+             "a render call from `%s`" % fmt_obj((X[0], X[1][:-1])),
+             ("rendered from `%s`" % "`, `".join(sorted(set(same)))) if ok else
+             "every render call that follows renders `%s`: the bitmap received into `%s` is not the one decoded, the list handed "
+             "to L1 is the one of the Mobile Allocation `%s` held before" % ("`, `".join(sorted(set(differ))), ctext(dst),
+                                                                         "` / `".join(sorted(set(differ)))),
+             ok, fm.line(c))
+    return k
+
+
 def _only_fills(fm, q, nm):
     """statement q only initialises the local array `nm` (memset / bzero / memcpy into it, element store): no alias is made"""
     a = strip(q.ast, casts=True) if q.kind == "stmt" and q.ast is not None else None
@@ -6308,9 +6832,269 @@ def r5_setfh(L, tu=None, facts=None):
                 facts.setdefault("strmax", {})[ARR] = max(Z0 + off, facts.get("strmax", {}).get(ARR, 0))
 
 
+# ------------------------------------------------- downstream: order of the entries
+
+SORT_FNS = ("qsort",)
+
+
+class _Origins(object):
+    """Where the values formatted into the text come from: element reads `*(base + index)`, found by following the
+    reaching definitions of locals backwards through conversions (arithmetic with constants, calls: their result is a
+    function of their arguments).  -> [(base expr, index expr | None, CFG node of the read)]"""
+
+    def __init__(self, fm, fn):
+        self.fm, self.fn, self.chain = fm, fn, []
+
+    def of(self, e, at, depth=0):
+        fm = self.fm
+        e = strip(e, casts=True)
+        k = kind(e)
+        if depth > 8:
+            raise AnalysisError("%s(): value `%s` formatted into the allocation has a definition chain that is too long" % (self.fn, ctext(e)[:40]))
+        if fm.tu.fold(e) is not None or k in ("IntegerLiteral", "CharacterLiteral", "UnaryExprOrTypeTraitExpr"):
+            return []
+        if k in ("BinaryOperator", "ConditionalOperator") and e.get("opcode", "?") not in ("=", ","):
+            return [o for x in kids(e) for o in self.of(x, at, depth)]
+        if k == "UnaryOperator" and e.get("opcode") in ("-", "~", "+", "!"):
+            return self.of(kids(e)[0], at, depth)
+        if k == "CallExpr":
+            return [o for x in kids(e)[1:] for o in self.of(x, at, depth)]
+        if k == "ArraySubscriptExpr":
+            return [(kids(e)[0], kids(e)[1], at)]
+        if k == "UnaryOperator" and e.get("opcode") == "*":
+            return [(kids(e)[0], None, at)]
+        v = _ref_name(e)
+        if v is not None and v in fm.locals and v not in fm.addr and v not in fm.dups and "[" not in qt_of(fm.locals[v]):
+            defs = fm.reaching_defs(v, at)
+            out = []
+            for d in defs:
+                if d == "undef" or d.how not in ("init", "assign") or d.val is None:
+                    raise AnalysisError("%s(): `%s`, formatted into the allocation, is not a plain copy of a value on every path" % (self.fn, v))
+                self.chain.append((d.node, at))
+                out += self.of(d.val, d.node, depth + 1)
+            return out
+        raise AnalysisError("%s(): origin of `%s`, formatted into the allocation, cannot be followed" % (self.fn, ctext(e)[:40]))
+
+
+def comparator_fold(tu, name):
+    """The comparator `name` run (concrete interpreter of C20.R8) on pairs of ARFCNs (x, y) with x in front of y in the
+    order of TS 44.018 10.5.2.21 (ascending, ARFCN 0 last).  -> ("keeps", n) | ("swaps", x, y, result) | ("open", why)"""
+    fd = tu.functions.get(name)
+    if fd is None or not any(kind(x) == "CompoundStmt" for x in kids(fd)):
+        return ("open", "comparator %s() has no definition in the unit" % name)
+    try:
+        prog = Conc(tu, fd)
+    except CannotEval as u:
+        return ("open", "comparator %s() cannot be interpreted: %s" % (name, u))
+    except (TypeError, KeyError, IndexError, AttributeError, ValueError, RecursionError) as u:
+        return ("open", "comparator %s() cannot be interpreted (%s)" % (name, str(u)[:60] or type(u).__name__))
+    if len(prog.params) != 2:
+        return ("open", "comparator %s() takes %d parameters" % (name, len(prog.params)))
+    pairs = [(x, 0) for x in range(1, 1024)] + [(x, x + 1) for x in range(1, 1023)] + \
+            [(x, y) for x in (1, 2, 124, 125, 511, 512, 974, 975) for y in (3, 126, 513, 976, 1023) if x < y]
+    n = 0
+    for (x, y) in pairs:
+        res = []
+        for (a, b) in ((x, y), (y, x)):
+            st = State()
+            st.loc = {prog.params[0]: Ptr(Buf("a", [a], (16, False)), 0), prog.params[1]: Ptr(Buf("b", [b], (16, False)), 0)}
+            try:
+                try:
+                    prog.body(st)
+                    return ("open", "comparator %s() ends without a value" % name)
+                except _Ret as r:
+                    res.append(r.v)
+            except (Fault, CannotEval) as u:
+                return ("open", "comparator %s(%d, %d): %s" % (name, a, b, u))
+            except (_Brk, _Cnt, _Goto, TypeError, KeyError, IndexError, AttributeError, ValueError, OverflowError, RecursionError) as u:
+                return ("open", "comparator %s(%d, %d) not modelled (%s)" % (name, a, b, type(u).__name__))
+        if any(v is None or v is UNDEF or isinstance(v, Ptr) for v in res):
+            return ("open", "comparator %s(%d, %d) yields no definite value" % (name, x, y))
+        if res[0] > 0 and res[1] < 0:
+            return ("swaps", x, y, res[0])
+        if not (res[0] < 0 and res[1] > 0):
+            return ("open", "comparator %s() does not order %d and %d strictly (%d / %d)" % (name, x, y, res[0], res[1]))
+        n += 1
+    return ("keeps", n)
+
+
+def r15_order(L, tu=None):
+    """C20.R15 -- downstream half of the clause "in the order defined by 3GPP TS 44.018 10.5.2.21 (ascending ARFCN with
+    ARFCN 0 last)": the order of the decoded list is part of the result (the MAI indexes it), so the consumer that turns
+    the list into the SETFH command must write its k-th (Rx, Tx) pair from the k-th entry of the list it was given.
+    Dataflow on the statement CFG of trx_if_cmd_setfh(): every value formatted by the snprintf that appends a pair is
+    followed backwards through its reaching definitions and conversions to the element read(s) it derives from; all of
+    them must read one address `list + w` / `w` where the walker w (a local index or pointer) holds 0 / the start of the
+    list member of the parameter at loop entry, is advanced by exactly one element per appended pair (one step in the
+    loop; no second pair without a step: duplicate; no second step without a pair while the command is still sent:
+    dropped entry) and is not stepped between a read and the snprintf.  When the elements are read from a local buffer
+    instead, its contents are derived from its writers: a whole copy of the list (size = length x element size) is the
+    list itself; a sort call on it is decided by running its comparator (interpreter of C20.R8) on all pairs (x, 0) and
+    neighbours (x, x+1) in list order -- a comparator that puts 0 in front reorders every list with ARFCN 0 and another
+    channel: violation with that list; one that keeps every pair leaves valid lists as they are.  Other writers of the
+    buffer, walkers of another shape, or reads at different addresses are not classified (ANALYSIS-ERROR)."""
+    R = "C20.R15"
+    fn = "trx_if_cmd_setfh"
+    tu = tu or trx_unit(L)
+    fd = tu.func(fn)
+    ps = tu.fparams(fd)
+    if len(ps) != 2:
+        raise AnalysisError("%s() signature changed" % fn)
+    P = ps[1].get("name")
+    LIST, MLEN = "%s->ma" % P, "%s->ma_len" % P
+    fm = FM(tu, fd, extra_invariant={MLEN, LIST})
+    if not fm.never_written(P) or any(ctext(kids(w.ast)[0]) in (LIST, MLEN) for w in fm.memwrites):
+        raise AnalysisError("%s(): the parameter `%s` or its list members are written in the function" % (fn, P))
+    emits = [n for (n, c) in fm.calls if ctext(kids(c)[0]) == "trx_ctrl_cmd"]
+    sn = [(n, c) for (n, c) in fm.calls if ctext(kids(c)[0]) in PRINTF_SIZED and fm.enclosing_loops(n)]
+    L.floor(R, "snprintf calls that append a pair of the allocation (inside the loop over it)", len(sn), 1)
+    for (n, c) in sn:
+        loops = fm.enclosing_loops(n)
+        c0 = fm.g.by_ast.get(id(loops[0])) if len(loops) == 1 else None
+        if c0 is None or c0.kind != "cond" or kind(loops[0]) == "DoStmt":
+            raise AnalysisError("%s(): the loop around the snprintf has a shape that is not supported" % fn)
+        region = fm.natural_loop(c0)
+        og = _Origins(fm, fn)
+        reads = [o for a in kids(c)[4:] for o in og.of(a, n)]
+        if not reads:
+            raise AnalysisError("%s(): no value formatted by the snprintf is read from a list" % fn)
+        # ---- one address for all reads: an affine function of one walker
+        forms = set()
+        for (b, i, at) in reads:
+            t = fm.lower(b) if i is None else X.add(fm.lower(b), fm.lower(i))
+            try:
+                co, k = X.linear(t)
+            except AnalysisError:
+                co, k = None, None
+            if co is None:
+                raise AnalysisError("%s(): element address `%s` is not linear" % (fn, X.show(t)[:50]))
+            forms.add((tuple(sorted((v, a) for (v, a) in co.items() if a)), k))
+        if len(forms) != 1:
+            raise AnalysisError("%s(): the values of one pair are read at different addresses (%s)" % (
+                fn, "; ".join(sorted("%s%+d" % (" + ".join("%d*%s" % (a, v) for (v, a) in f[0]), f[1]) for f in forms))))
+        (cof, k) = forms.pop()
+        cof = dict(cof)
+        names = sorted(cof)
+        wk = [v for v in names if v in fm.locals and "[" not in qt_of(fm.locals[v]) and
+              any(x.node.id in region for x in fm.writes.get(v, []))]
+        if len(wk) != 1 or wk[0] in fm.addr or wk[0] in fm.dups:
+            raise AnalysisError("%s(): element address `%s` is not walked by one local of the loop" % (fn, " + ".join(names)))
+        w = wk[0]
+        steps = [x for x in fm.writes.get(w, []) if x.node.id in region]
+        dlt = None
+        if len(steps) == 1:
+            st0 = steps[0]
+            if st0.how == "inc":
+                dlt = st0.delta
+            elif st0.how in ("aug+=", "aug-=") and fm.tu.fold(st0.val) is not None:
+                dlt = fm.tu.fold(st0.val) * (1 if st0.how == "aug+=" else -1)
+            elif st0.how == "assign" and st0.val is not None:
+                dd = X.sub(fm.lower(st0.val), X.V(w))
+                dlt = dd[1] if X.is_c(dd) else None
+        if dlt not in (1, -1):
+            raise AnalysisError("%s(): walker `%s` of the allocation is not advanced by one single step of one entry in the loop" % (fn, w))
+        step = steps[0].node
+        e0 = entry_term(fm, X.V(w), c0, region)
+        if free_vars(e0) & set(fm.locals) - set(fm.LW.env):
+            raise AnalysisError("%s(): value of the walker `%s` at loop entry is not resolved (`%s`)" % (fn, w, X.show(e0)[:40]))
+        # address of the element pair k is read from, k = 0, 1, ..: the address with w = e0 + dlt * k
+        rest = X.add(*([X.mul(X.C(a), X.V(v)) for (v, a) in cof.items() if v != w] + [X.C(k)]))
+        start = X.add(rest, X.mul(X.C(cof[w]), e0))
+        try:
+            sco, sk = X.linear(start)
+        except AnalysisError:
+            sco, sk = None, None
+        if sco is None:
+            raise AnalysisError("%s(): address of the first entry read (`%s`) is not linear" % (fn, X.show(start)[:50]))
+        sco = {v: a for (v, a) in sco.items() if a}
+        per_k, per_n = cof[w] * dlt, sco.pop(MLEN, 0)
+        # ---- the buffer the elements are read from
+        how = "the list `%s` of the parameter" % LIST
+        srcs = [v for v in sco if sco[v]]
+        bad = None
+        if len(srcs) == 1 and srcs[0] in fm.locals and "[" in qt_of(fm.locals[srcs[0]]) and sco[srcs[0]] == 1:
+            buf = srcs[0]
+            verdict = buffer_contents(L, fm, tu, fn, buf, c0, LIST, MLEN)
+            if verdict[0] == "swaps":
+                bad = "`%s` is sorted by %s() before the pairs are written: %s(%d, %d) = %d puts ARFCN 0 in front, the list {%d, 0} " \
+                      "(order of TS 44.018: 0 last) is sent as {0, %d} and every MAI selects another channel than in the BTS" % (
+                          buf, verdict[4], verdict[4], verdict[1], verdict[2], verdict[3], verdict[1], verdict[1]) if verdict[2] == 0 else \
+                      "`%s` is sorted by %s() before the pairs are written: the list {%d, %d} is sent as {%d, %d}" % (
+                          buf, verdict[4], verdict[1], verdict[2], verdict[2], verdict[1])
+            how = "local `%s`, %s" % (buf, verdict[-1] if verdict[0] != "swaps" else "sorted")
+        elif srcs != [LIST] or sco[LIST] != 1:
+            raise AnalysisError("%s(): the pairs are read from `%s`, which is not the list of the parameter" % (fn, X.show(start)[:50]))
+        # pair k of a list of N entries is read from entry per_k * k + per_n * N + sk: folded for N = 1..4
+        wit = [(kk, nn, per_k * kk + per_n * nn + sk) for nn in range(1, 5) for kk in range(nn) if per_k * kk + per_n * nn + sk != kk]
+        # ---- exactly one step per pair
+        dup = n.id in fm.reach_succ(n, skip=[step])
+        early = step.id in fm.reach_succ(c0, skip=[n]) or step.id in fm.reach_succ(step, skip=[n])
+        sent = early and any(e.id in fm.reach_succ(step) for e in emits)
+        moved = [d for (d, use) in og.chain + [(at, n) for (_, _, at) in reads if at is not n]
+                 if use.id in fm.reach_succ(step, skip=[d]) and d is not use and step.id in fm.reach_succ(d)]
+        if early and not sent:
+            raise AnalysisError("%s(): walker `%s` can be advanced without a pair being written, on paths that may not send the command" % (fn, w))
+        if moved:
+            raise AnalysisError("%s(): walker `%s` can be advanced between the read of an entry and the snprintf that formats it" % (fn, w))
+        found = "pair k is read at `%s` with `%s` = %s at loop entry, one step of %+d per pair (%s)" % (
+            " + ".join(("%d*" % cof[v] if cof[v] != 1 else "") + v for v in names) + ("%+d" % k if k else ""), w, X.show(e0), dlt, how)
+        if bad is None and wit:
+            bad = "pair %d of a list of %d entr%s is read from entry %d (address `%s`, `%s` = %s at loop entry, step %+d)" % (
+                wit[0][0], wit[0][1], "y" if wit[0][1] == 1 else "ies", wit[0][2],
+                " + ".join(("%d*" % cof[v] if cof[v] != 1 else "") + v for v in names) + ("%+d" % k if k else ""), w, X.show(e0), dlt)
+        if bad is None and dup:
+            bad = "a second pair can be written without advancing `%s`: an entry is sent twice" % w
+        if bad is None and sent:
+            bad = "`%s` can be advanced without a pair being written while the command is still sent: an entry is dropped" % w
+        L.ob(R, F_TRX, fn, "the k-th Rx/Tx pair of the SETFH command is composed from the k-th entry of the list `%s` (order of the "
+             "decoded hopping list kept: no reordering, no dropped or repeated entry)" % LIST,
+             "pair k from entry k", found if bad is None else bad, bad is None, fm.line(c))
+
+
+def buffer_contents(L, fm, tu, fn, buf, c0, LIST, MLEN):
+    """what the local array `buf` holds when the loop with header c0 is entered, from its writers"""
+    writers = []
+    region = fm.natural_loop(c0)
+    for (n, c) in fm.calls:
+        uses = [x for a in kids(c)[1:] for x in walk(a) if kind(x) == "DeclRefExpr" and _ref_name(x) == buf]
+        if not uses or all(kind(fm.parent(x) or {}) == "ArraySubscriptExpr" and
+                           not (kind(fm.parent(fm.parent(x)) or {}) == "UnaryOperator" and fm.parent(fm.parent(x)).get("opcode") == "&")
+                           for x in uses):
+            continue            # the call is handed elements of the buffer by value
+        if n.id in region or not fm.g.dominates(n, c0):
+            raise AnalysisError("%s(): `%s` is handed to %s() inside / beside the loop that writes the pairs" % (fn, buf, ctext(kids(c)[0])[:30]))
+        writers.append((n, c))
+    for w in fm.memwrites:
+        if fm.store_base(kids(w.ast)[0]) == buf:
+            raise AnalysisError("%s(): `%s` is filled element by element (`%s`): not followed" % (fn, buf, stmt_text(w.ast)[:40]))
+    writers.sort(key=lambda t: sum(1 for (m, _) in writers if fm.g.dominates(m, t[0])))
+    if not writers or _callee(writers[0][1]) not in COPY_FNS:
+        raise AnalysisError("%s(): the pairs are read from the local `%s`, whose contents are not a copy of the list" % (fn, buf))
+    (n, c) = writers[0]
+    args = kids(c)[1:]
+    d, s = field_ptr(fm, args[0]), field_ptr(fm, args[1])
+    es = int_type(tu, re.sub(r"\s*\[\d*\]$", "", qt_of(fm.locals[buf])))
+    size_ok = es is not None and X.sub(fm.lower(args[2]), X.mul(X.V(MLEN), X.C(es[0] // 8))) == X.C(0)
+    if d is None or s is None or _ref_name(d[0]) != buf or d[1] != 0 or ctext(s[0]) != LIST or s[1] != 0 or not size_ok:
+        raise AnalysisError("%s(): `%s` is not a whole copy of the list `%s` (%s)" % (fn, buf, LIST, stmt_text(c)[:60]))
+    verdict = ("copy", "a whole copy of `%s`" % LIST)
+    for (n, c) in writers[1:]:
+        cal, args = _callee(c), kids(c)[1:]
+        if cal not in SORT_FNS or len(args) != 4 or _ref_name(args[0]) != buf:
+            raise AnalysisError("%s(): `%s` is handed to %s() after the copy: effect on the order of the entries unknown" % (fn, buf, cal))
+        cmp_name = _ref_name(args[3])
+        r = comparator_fold(tu, cmp_name) if cmp_name else ("open", "comparator `%s` is not a function name" % ctext(args[3])[:30])
+        if r[0] == "open":
+            raise AnalysisError("%s(): `%s` is sorted before the pairs are written; %s" % (fn, buf, r[1]))
+        if r[0] == "swaps":
+            return ("swaps", r[1], r[2], r[3], cmp_name)
+        verdict = ("sorted", "a whole copy of `%s`, sorted by %s() which keeps the list order for all %d tested pairs" % (LIST, cmp_name, r[1]))
+    return verdict
+
+
 # ------------------------------------------------- downstream: carriage of the text
 
-PRINTF_SIZED = ("snprintf", "__builtin_snprintf")
+PRINTF_SIZED =("snprintf", "__builtin_snprintf")
 VPRINTF_SIZED = ("vsnprintf", "__builtin_vsnprintf")
 _CONV = re.compile(r"%([-+ #0]*)(\*|\d*)(?:\.(\*|\d*))?(hh|h|ll|l|z|j|t)?([diuxXocs%])")
 
@@ -6735,6 +7519,7 @@ def run(L, tier):
     tuT = L.stage(trx_unit, L)
     L.stage(r5_setfh, L, tuT, facts)    # downstream consumer: the text of the allocation is composed inside its buffer
     L.stage(r10_carriage, L, tuT, facts)    # ... and reaches the command untruncated (uses the bound R5 proved, if any)
+    L.stage(r15_order, L, tuT)          # ... with pair k composed from entry k of the list (order of the decoded list kept)
     sl = L.stage(build_slice, L)
     L.stage(lambda x: r2_callers(L, x[1], tier), sl)        # caller buffers (lexer; independent of the decoder's shape)
     pending = list(sl[1]["refused"]) if sl is not STAGE_FAILED else []
@@ -6752,3 +7537,4 @@ def run(L, tier):
     L.stage(r11_lv_copies, L, tier)     # callers: the LV buffer the decoder reads holds the whole received bitmap
     L.stage(r12_result, L, sl, tier)    # callers: tests of the return value fit the results folded by C20.R8
     L.stage(r13_pairing, L, tier)       # callers: the list handed to L1 was rendered from the description handed along
+    L.stage(r14_received, L, tier)      # callers: the bitmap received for a description is the one rendered from it
